@@ -8,6 +8,8 @@ import (
 	"strings"
 
 	"golang.org/x/tools/go/ssa"
+
+	"lalverif/internal/model"
 )
 
 // fnCtx holds per-function caches for the translation of SSA values into linear forms.
@@ -18,8 +20,11 @@ type fnCtx struct {
 	repCache     map[ssa.Value]ssa.Value
 	lenCache     map[ssa.Value]Lin
 	phiLow       map[*ssa.Phi]*int64
-	success      []successFact
-	e            *Engine
+	// rawPaths: canonAddr names field paths even for fields the function stores (used only to
+	// recognise which loads read a given path)
+	rawPaths bool
+	success  []successFact
+	e        *Engine
 	// assumeParams: treat integer parameters of fn as non-negative (used while computing
 	// summaries); usedParams records which ones a proof relied on
 	assumeParams bool
@@ -100,9 +105,186 @@ func (c *fnCtx) canon(v ssa.Value) (ssa.Value, string) {
 		if rep := c.repLoad(v); rep != nil {
 			return rep, ""
 		}
+		if rep := c.repLoadHeap(v); rep != nil {
+			return rep, ""
+		}
 		return v, ""
 	}
 	return root, strings.Join(path, ".")
+}
+
+// repLoadHeap: a load of a field through a pointer, in a function that also stores that field
+// (so the field path is no stable atom): an earlier load of the same address expression that
+// dominates it reads the same value when nothing in between can write the field - no store to
+// a field of that name or through a plain pointer of the field's type, and no call at all
+// (calls may write it through an alias). The earliest such load represents v.
+func (c *fnCtx) repLoadHeap(v ssa.Value) ssa.Value {
+	ld, ok := v.(*ssa.UnOp)
+	if !ok || ld.Op != token.MUL {
+		return nil
+	}
+	fa, ok := ld.X.(*ssa.FieldAddr)
+	if !ok {
+		return nil
+	}
+	if _, isAlloc := fa.X.(*ssa.Alloc); isAlloc {
+		return nil
+	}
+	if c.repCache == nil {
+		c.repCache = map[ssa.Value]ssa.Value{}
+	}
+	if r, ok := c.repCache[v]; ok {
+		return r
+	}
+	c.repCache[v] = nil
+	fld := fieldOf(fa)
+	if fld == nil {
+		return nil
+	}
+	barrier := fieldBarrier(fld, ld.Type())
+	var best ssa.Value
+	for _, b := range c.fn.Blocks {
+		for _, in := range b.Instrs {
+			l, isL := in.(*ssa.UnOp)
+			if !isL || l.Op != token.MUL || l == ld || !sameLoadExpr(l.X, ld.X, 0) || !dominatesInstr(l, ld) {
+				continue
+			}
+			if !cleanBetween(l, ld, barrier) {
+				continue
+			}
+			if best == nil || dominatesInstr(l, best.(ssa.Instruction)) {
+				best = l
+			}
+		}
+	}
+	c.repCache[v] = best
+	return best
+}
+
+// loadOfPathAt: the function stores the last field of root.path, so the path is no stable atom
+// in it; when a load of exactly that path dominates site and nothing between the two can write
+// the field (see repLoadHeap), that load's value is the path's value at site.
+func (c *fnCtx) loadOfPathAt(root ssa.Value, path string, site ssa.Instruction) ssa.Value {
+	var best ssa.Value
+	for _, b := range c.fn.Blocks {
+		for _, in := range b.Instrs {
+			l, isL := in.(*ssa.UnOp)
+			if !isL || l.Op != token.MUL {
+				continue
+			}
+			fa, isFA := l.X.(*ssa.FieldAddr)
+			if !isFA {
+				continue
+			}
+			fld := fieldOf(fa)
+			if fld == nil || !strings.HasSuffix(path, fld.Name()) || !dominatesInstr(l, site) {
+				continue
+			}
+			c.rawPaths = true
+			r, pth, ok := c.canonAddr(l.X, 0)
+			c.rawPaths = false
+			if !ok || r != root || strings.Join(pth, ".") != path {
+				continue
+			}
+			if !cleanBetween(l, site, fieldBarrier(fld, l.Type())) {
+				continue
+			}
+			if best == nil || dominatesInstr(l, best.(ssa.Instruction)) {
+				best = l
+			}
+		}
+	}
+	return best
+}
+
+// fieldBarrier: instructions that may write field fld (of type t) between two reads.
+func fieldBarrier(fld *types.Var, t types.Type) func(ssa.Instruction) bool {
+	return func(in ssa.Instruction) bool {
+		switch x := in.(type) {
+		case *ssa.Store:
+			if a, isFA := x.Addr.(*ssa.FieldAddr); isFA {
+				return fieldOf(a) == fld
+			}
+			if _, isIA := x.Addr.(*ssa.IndexAddr); isIA {
+				return false
+			}
+			if _, isAl := x.Addr.(*ssa.Alloc); isAl {
+				return false
+			}
+			return types.Identical(x.Val.Type(), t)
+		case ssa.CallInstruction:
+			if b, isB := x.Common().Value.(*ssa.Builtin); isB {
+				switch b.Name() {
+				case "len", "cap", "min", "max":
+					return false
+				}
+			}
+			return true
+		case *ssa.Send, *ssa.Select:
+			return true
+		}
+		return false
+	}
+}
+
+// cleanBetween: no instruction satisfying barrier lies on a path from a (exclusive) to b.
+func cleanBetween(a, b ssa.Instruction, barrier func(ssa.Instruction) bool) bool {
+	type pos struct {
+		blk *ssa.BasicBlock
+		i   int
+	}
+	start := 0
+	for i, x := range a.Block().Instrs {
+		if x == a {
+			start = i + 1
+		}
+	}
+	// only blocks from which b can still be reached matter
+	reach := map[*ssa.BasicBlock]bool{b.Block(): true}
+	back := []*ssa.BasicBlock{b.Block()}
+	for len(back) > 0 {
+		x := back[len(back)-1]
+		back = back[:len(back)-1]
+		for _, p := range x.Preds {
+			if !reach[p] {
+				reach[p] = true
+				back = append(back, p)
+			}
+		}
+	}
+	seen := map[*ssa.BasicBlock]bool{}
+	work := []pos{{a.Block(), start}}
+	for len(work) > 0 {
+		p := work[len(work)-1]
+		work = work[:len(work)-1]
+		if !reach[p.blk] {
+			continue
+		}
+		if p.i == 0 {
+			if seen[p.blk] {
+				continue
+			}
+			seen[p.blk] = true
+		}
+		stopped := false
+		for i := p.i; i < len(p.blk.Instrs); i++ {
+			in := p.blk.Instrs[i]
+			if in == b {
+				stopped = true
+				break
+			}
+			if barrier(in) {
+				return false
+			}
+		}
+		if stopped {
+			continue
+		}
+		for _, s := range p.blk.Succs {
+			work = append(work, pos{s, 0})
+		}
+	}
+	return true
 }
 
 // repLoad: for a load of a field of a non-escaping local struct that the function also stores
@@ -267,7 +449,7 @@ func (c *fnCtx) canonAddr(addr ssa.Value, d int) (ssa.Value, []string, bool) {
 		return a, nil, true
 	case *ssa.FieldAddr:
 		f := fieldOf(a)
-		if f == nil || c.storedFields[f] {
+		if f == nil || (c.storedFields[f] && !c.rawPaths) {
 			return addr, nil, false
 		}
 		r, p, ok := c.canonAddr(a.X, d+1)
@@ -1011,6 +1193,43 @@ func (c *fnCtx) callResultFacts(call *ssa.Call, idx int, res Lin) []Ineq {
 				out = append(out, Ineq{c.seqLen(call.Common().Args[key[1]]).Sub(res), "result of " + f.Name() + " <= len(arg)"})
 			}
 		}
+		// affine summary: result = (a form over the parameters) + K with K in [lo, hi]
+		if sm := c.e.affineSummary(f, ri); sm != nil {
+			args := call.Common().Args
+			p := Const(0)
+			okSub := true
+			for a, coef := range sm.param.C {
+				prm := a.Root.(*ssa.Parameter)
+				k := -1
+				for i, q := range f.Params {
+					if q == prm {
+						k = i
+					}
+				}
+				if k < 0 || k >= len(args) {
+					okSub = false
+					break
+				}
+				var term Lin
+				switch a.Kind {
+				case 'v':
+					term = c.lin(args[k])
+				case 'l':
+					term = c.seqLen(args[k])
+				case 'c':
+					term = c.seqCap(args[k])
+				}
+				p = p.Add(term.Scale(coef))
+			}
+			if okSub {
+				if sm.hasLo {
+					out = append(out, Ineq{res.Sub(p).Sub(Const(sm.lo)), "result of " + f.Name() + " (every return)"})
+				}
+				if sm.hasHi {
+					out = append(out, Ineq{p.Add(Const(sm.hi)).Sub(res), "result of " + f.Name() + " (every return)"})
+				}
+			}
+		}
 	}
 	if f.Pkg == nil {
 		return out
@@ -1207,4 +1426,132 @@ func fwdLoad(v ssa.Value) ssa.Value {
 		}
 	}
 	return nil
+}
+
+// affineSum: every return of the function yields param + K for one linear form param over the
+// function's own parameters (values, lengths, capacities) and a K between lo and hi.
+type affineSum struct {
+	param        Lin
+	lo, hi       int64
+	hasLo, hasHi bool
+}
+
+// affineSummary computes (and caches for this round) the summary of result ri of fn, nil when
+// the returns do not share one parameter form or nothing is bounded. Atoms that are not
+// parameters are bounded by the constants their definition facts give (x%k, x&m, merges of
+// constants, type ranges); it is a property of the function's code alone.
+func (e *Engine) affineSummary(fn *ssa.Function, ri int) *affineSum {
+	if fn.Blocks == nil || fn.Signature.Results().Len() <= ri || !isInteger(fn.Signature.Results().At(ri).Type()) {
+		return nil
+	}
+	if !(model.IsLal(fn) || model.IsNaza(fn)) {
+		return nil
+	}
+	key := [2]interface{}{fn, ri}
+	if e.affine == nil {
+		e.affine = map[[2]interface{}]*affineSum{}
+	}
+	if s, ok := e.affine[key]; ok {
+		return s
+	}
+	e.affine[key] = nil // in progress / recursion
+	cc := e.fc(fn)
+	var sum *affineSum
+	for _, b := range fn.Blocks {
+		ret, ok := b.Instrs[len(b.Instrs)-1].(*ssa.Return)
+		if !ok {
+			continue
+		}
+		rvs := model.ReturnValues(ret)
+		if ri >= len(rvs) {
+			return nil
+		}
+		l := cc.lin(rvs[ri])
+		cur := affineSum{param: Const(0), lo: l.K, hi: l.K, hasLo: true, hasHi: true}
+		for a, coef := range l.C {
+			if _, isP := a.Root.(*ssa.Parameter); isP && a.Path == "" && (a.Kind == 'v' || a.Kind == 'l' || a.Kind == 'c') {
+				cur.param = cur.param.Add(Var(a).Scale(coef))
+				continue
+			}
+			alo, ahi, okLo, okHi := cc.constBounds(a)
+			if coef > 0 {
+				if okLo {
+					cur.lo += coef * alo
+				} else {
+					cur.hasLo = false
+				}
+				if okHi {
+					cur.hi += coef * ahi
+				} else {
+					cur.hasHi = false
+				}
+			} else {
+				if okHi {
+					cur.lo += coef * ahi
+				} else {
+					cur.hasLo = false
+				}
+				if okLo {
+					cur.hi += coef * alo
+				} else {
+					cur.hasHi = false
+				}
+			}
+		}
+		if sum == nil {
+			c2 := cur
+			sum = &c2
+			continue
+		}
+		if sum.param.String() != cur.param.String() {
+			return nil
+		}
+		if cur.hasLo && sum.hasLo {
+			if cur.lo < sum.lo {
+				sum.lo = cur.lo
+			}
+		} else {
+			sum.hasLo = false
+		}
+		if cur.hasHi && sum.hasHi {
+			if cur.hi > sum.hi {
+				sum.hi = cur.hi
+			}
+		} else {
+			sum.hasHi = false
+		}
+	}
+	if sum == nil || (!sum.hasLo && !sum.hasHi) {
+		return nil
+	}
+	if len(sum.param.C) == 0 && sum.hasLo && sum.hasHi && sum.lo == sum.hi {
+		// a constant: lin0 already handles it
+	}
+	e.affine[key] = sum
+	return sum
+}
+
+// constBounds: constant bounds of an atom from its definition facts (facts of the shape
+// atom - k >= 0 and k - atom >= 0).
+func (c *fnCtx) constBounds(a Atom) (lo, hi int64, okLo, okHi bool) {
+	for _, f := range c.defFacts(a) {
+		if len(f.L.C) != 1 {
+			continue
+		}
+		coef, has := f.L.C[a]
+		if !has {
+			continue
+		}
+		switch coef {
+		case 1: // a + K >= 0  ->  a >= -K
+			if !okLo || -f.L.K > lo {
+				lo, okLo = -f.L.K, true
+			}
+		case -1: // -a + K >= 0 -> a <= K
+			if !okHi || f.L.K < hi {
+				hi, okHi = f.L.K, true
+			}
+		}
+	}
+	return
 }
